@@ -51,7 +51,11 @@ function handlerProxy(op, seq) {
             pathParams: (ctx && ctx.pathParams) || {}, headers: (ctx && ctx.headers) || {} });
       const h = op.handler || { kind: 'ok', value: {} };
       if (h.kind === 'ok') return h.value;
-      if (h.kind === 'plain') throw new Error(h.msg || 'boom');
+      if (h.kind === 'plain') {
+        // an error of the built-in class its message names (what JSON.parse, new RegExp, BigInt ... throw inside a handler)
+        const cls = { SyntaxError, TypeError, RangeError }[String(h.msg || '').split(':')[0]] || Error;
+        throw new cls(h.msg || 'boom');
+      }
       if (h.kind === 'validationError') {
         const m = mods.get(op.module).mod;
         throw new m.ValidationError((h.viol || []).map((v) => ({ field: v[0], description: v[1] })));
